@@ -40,7 +40,11 @@ impl Waiting for BTreeMap<BlockId, BlockId> {
         }
     }
 }
-impl Waiting for BTreeMap<BlockId, Vec<BlockId>> {
+#[cfg(kani)]
+type WaitList = crate::verif_coll::tvec::Vec<BlockId>;
+#[cfg(not(kani))]
+type WaitList = Vec<BlockId>;
+impl Waiting for BTreeMap<BlockId, WaitList> {
     fn put(&mut self, parent: BlockId, child: BlockId) {
         self.entry(parent).or_default().push(child);
     }
@@ -221,7 +225,7 @@ macro_rules! stubs {
         #[cfg_attr(kani, kani::stub(crate::consensus::pool::PoolImpl::handle_finalization, crate::consensus::pool::kani_c06_pool::cut::handle_finalization))]
         #[cfg_attr(kani, kani::stub(crate::consensus::pool::parent_ready_tracker::ParentReadyTracker::mark_notar_fallback, crate::consensus::pool::kani_c06_pool::cut::mark_notar_fallback))]
         #[cfg_attr(kani, kani::stub(crate::consensus::pool::parent_ready_tracker::ParentReadyTracker::handle_finalization, crate::consensus::pool::kani_c06_pool::cut::prt_handle_finalization))]
-        #[cfg_attr(kani, kani::unwind(6))]
+        #[cfg_attr(kani, kani::unwind(3))]
         #[cfg_attr(verif_replay, test)]
         fn $name() {
             $body
